@@ -37,6 +37,13 @@ pub struct ParsedHunkHeader {
     line_numbers_and_hunk_lengths: Vec<(usize, usize)>,
 }
 
+impl ParsedHunkHeader {
+    /// Whether the hunk has no lines on the side of the new file (`@@ -1 +0,0 @@`).
+    pub fn new_side_is_empty(&self) -> bool {
+        matches!(self.line_numbers_and_hunk_lengths.last(), Some((_, 0)))
+    }
+}
+
 pub enum HunkHeaderIncludeHunkLabel {
     Yes,
     No,
